@@ -54,7 +54,9 @@ def design_level(rep, tier):
     if r.rc != 0:
         raise V.ToolError("MC_Cpu failed:\n" + V.tail(r.out, 30))
     rep.add_tlc(r)
-    rep.notes.append("MC_Cpu: adc/sbc (all 2x256x256), cmp, and/ora/eor, rol/ror, jsr/rts (all sp), beq (all offsets), zp,x wrap agree with the arithmetic statements")
+    rep.notes.append("MC_Cpu: adc/sbc (all 2x256x256), cmp, and/ora/eor, rol/ror, jsr/rts (all sp), beq (all offsets), zp,x wrap agree with the arithmetic "
+                     "statements; php pushes NV11DIZC for all 64 flag sets, plp ignores bits 4/5 for all 256 bytes, php;plp identity, rti (flags, pc without +1), "
+                     "jmp (ind) for every vector low byte incl. the $xxFF page wrap, decimal adc: silent in Step, binary in StepM(mirror)")
     workers = 4 if tier == "quick" else 5
     big = dict(workers=workers, timeout=3400, xmx="8g")
     ri = V.tlc(MC, cfg=cfg("ideal_" + tier), tag="C18-ideal", **big)
@@ -67,6 +69,22 @@ def design_level(rep, tier):
     rep.notes.append("MC_TestRunner ideal (%s): %d states, depth %d; VerdictReflectsState, VerdictStrict, TypeInv, FollowsPath, FailureIsReal, NothingDisarmed hold"
                      % (tier, ri.distinct, ri.depth))
     cases = [D.from_tlc_case(l) for l in ri.prints("CASE")]
+    # round 4: alphabet B (pha/pla/php/plp, cmp/sec, page-wrapped jmp (ind), rti) and alphabet A with fuel for 256-iteration loops
+    rb = V.tlc(MC, cfg=cfg("idealB_" + tier), tag="C18-idealB", **big)
+    rl = V.tlc(MC, cfg=cfg("long_" + tier), tag="C18-long", **big)
+    for nm, rr in (("alphabet B", rb), ("long fuel", rl)):
+        if rr.invariant_violated:
+            rep.violations.append({"why": "design level: TestRunner (%s) violates an invariant" % nm, "replay": {"tlc_output": V.tail(rr.out, 80)}, "id": "MC_TestRunner " + nm})
+            return []
+        if rr.rc != 0 or "Error:" in rr.out:
+            raise V.ToolError("MC_TestRunner (%s) failed:\n%s" % (nm, V.tail(rr.out, 40)))
+        rep.add_tlc(rr)
+    casesB = [D.from_tlc_case(l) for l in rb.prints("CASE")]
+    for c in casesB:
+        c["alphabet"] = "B"
+    rep.notes.append("MC_TestRunner alphabet B (%s): %d states, depth %d; long fuel (1400 instructions, alphabet A): %d states, depth %d; same invariants hold"
+                     % (tier, rb.distinct, rb.depth, rl.distinct, rl.depth))
+    cases += casesB
     if DEV in rep.open:
         rm = V.tlc(MC, cfg=cfg("impl_" + tier), tag="C18-impl", **big)
         if rm.invariant_violated:
@@ -85,8 +103,13 @@ def design_level(rep, tier):
         rv = V.tlc(MC, cfg=cfg("vac_" + w), workers=2, timeout=900, tag="C18-vac-" + w)
         if not rv.invariant_violated:
             raise V.ToolError("vacuous state space: witness %s is not reachable" % w)
+    for w in ("NoWrapJumpPass", "NoRtiPass", "NoBreakBitsSeen", "NoPlpFlags"):
+        rv = V.tlc(MC, cfg=cfg("vac_" + w), workers=2, timeout=900, tag="C18-vac-" + w)
+        if not rv.invariant_violated:
+            raise V.ToolError("vacuous state space (alphabet B): witness %s is not reachable" % w)
     rep.notes.append("vacuity witnesses reachable: long passing run, failure on a re-visit (loop), failure inside the subroutine, "
-                     "unevaluable assertion, assertion skipped by a branch")
+                     "unevaluable assertion, assertion skipped by a branch; alphabet B: passing runs through the page-wrapped jmp (ind), "
+                     "through rti, with the pushed break bits read back (cpu.a == $34), with flags loaded by plp")
     return cases
 
 
@@ -159,7 +182,7 @@ def main(tier):
     if rep.violations:
         return rep.finish()
     rnd = V.rng("C18")
-    n_gen, n_rand = (350, 450) if tier == "quick" else (4000, 4000)
+    n_gen, n_rand = (450, 450) if tier == "quick" else (4500, 4000)
     # (input selection only) bodies whose Ideal verdict is "unspec" mostly do not terminate: they would only hit the timeout
     cases = [c for c in cases if c["ideal"] != "unspec"]
     rnd.shuffle(cases)
@@ -167,8 +190,8 @@ def main(tier):
     for c in cases[:n_gen]:
         cid = len(jobs) + 1
         jobs.append((cid, c["prj"]))
-        origin[cid] = "tlc shape=%s ideal=%s" % (c["shape"], c["ideal"])
-    g = D.Gen(rnd)
+        origin[cid] = "tlc alphabet=%s shape=%s ideal=%s" % (c.get("alphabet", "A"), c["shape"], c["ideal"])
+    g = D.Gen(rnd, long_runs=1 if tier == "quick" else 2)
     for _ in range(n_rand):
         cid = len(jobs) + 1
         jobs.append((cid, g.project()))
@@ -197,8 +220,10 @@ def main(tier):
     rep.cov["rule"] = ("one evaluation = one test of one generated project run by `mos test` and judged by TestRunnerTrace.tla (verdict, failing "
                        "location, message, registers at the failure, exit status, summary; with the hook also every per-instruction register "
                        "record against Cpu!Step); TLC-generated bodies (alphabet of MC_TestRunner) plus seeded random projects with counted loops, "
-                       "forward skips, subroutines inside/outside the test, scopes, .loop/index, 1-3 tests, two overlapping banks; "
+                       "forward skips, subroutines inside/outside the test, scopes, .loop/index, 1-3 tests, two overlapping banks, php/pla, pha/plp, rti, jmp (ind) through data and page-edge RAM vectors, decimal-flag adds, delay loops of up to thousands of instructions; "
                        "distinct_nontrivial = distinct project texts having a test with a decided (passed/failed) Ideal verdict reached after >= 3 path states")
+    rep.cov["decimal_mirror_traces"] = sum(1 for x in stats if x["dev"] == "mirror")
+    rep.cov["longest_run_instructions"] = max([len(x["steps"]) for r in recs for x in r["runs"]] or [0])
     rep.cov["ideal_verdicts"] = {k: sum(1 for x in stats if x["dev"] == k) for k in ("passed", "failed", "unspec", "nolayout")}
     rep.cov["hook_traces"] = ntrace
     rep.cov["tlc_generated_cases_replayed"] = min(n_gen, len(cases))
@@ -213,7 +238,7 @@ def main(tier):
     for r in good[:3]:
         rep.sample({"program": texts[r["id"]], "tests": r["obs"]["tests"], "failures": r["obs"]["failures"], "exit": r["obs"]["exit"]})
     rep.assumptions += ["flag symbols may read 1 or their mask bit: assertions whose truth depends on that are not judged",
-                        "decimal mode, instructions outside Cpu!Modelled, jmp (ind), ram() outside 0..65535, runs longer than 3000 instructions, "
+                        "adc/sbc with the decimal flag set (tier 2 only: hook trace against the binary-arithmetic mirror of the emulator), instructions outside Cpu!Modelled, jmp ($ffff), ram() outside 0..65535, runs longer than 20000 instructions, "
                         "string-valued assertions and cycle counts are outside the specification (accepted as observed)",
                         "projects the assembler rejects are outside C18 (counted, reported as drift if the model has a layout)"]
     for x in rows:
